@@ -1,5 +1,6 @@
 import Poulpy.Driver.Util
 import Poulpy.Model.Ckks
+import Poulpy.Model.CkksData
 /-!
 Wire format of the `ckks` command (model side; `harness/src/cmd_ckks.rs` prints the same form).
 
@@ -125,10 +126,79 @@ def runAll (env : Env) : Pool → List String → List String → List String
       | .err e s => runAll env s rest (("err:" ++ e.toString ++ "@" ++ showPool s) :: acc)
       | .panic p => (("panic:" ++ p.cls) :: acc).reverse
 
+/-! ### data mode (`data=…`): the linear fragment on ciphertexts with limbs (`Model/CkksData.lean`)
+
+`data=` carries the limbs of every pool slot (slots joined by `/`; per slot the integers of column 0 then
+column 1, limb by limb, coefficient by coefficient, joined by `.`).  Every answer entry is followed by
+`#` and the limbs of the destination slot after the call, in the same layout. -/
+
+def chunks {α : Type} (k : Nat) : Nat → List α → List (List α)
+  | 0, _ => []
+  | m + 1, l => l.take k :: chunks k m (l.drop k)
+
+def parseG (base2k n size : Nat) (s : String) : Core.GLWE :=
+  let xs : List Int := ((s.splitOn ".").filter (fun t => !t.isEmpty)).map int!
+  let cols := (chunks (size * n) 2 xs).map (fun c => chunks n size c)
+  { base2k := base2k, k := size * base2k, n := n, cols := cols }
+
+def showG (g : Core.GLWE) : String :=
+  ".".intercalate ((g.cols.flatten.flatten).map toString)
+
+def parseLOp (t : String) : Option LOp :=
+  match t.splitOn "," with
+  | ["add", d, a, b] => some (.add false (nat! d) (nat! a) (nat! b))
+  | ["sub", d, a, b] => some (.add true (nat! d) (nat! a) (nat! b))
+  | ["add_assign", d, a] => some (.addAssign false (nat! d) (nat! a))
+  | ["sub_assign", d, a] => some (.addAssign true (nat! d) (nat! a))
+  | ["neg", d, a] => some (.neg (nat! d) (nat! a))
+  | ["neg_assign", d] => some (.negAssign (nat! d))
+  | ["mul_pow2", d, a, bits] => some (.mulPow2 (nat! d) (nat! a) (nat! bits))
+  | ["mul_pow2_assign", d, bits] => some (.mulPow2Assign (nat! d) (nat! bits))
+  | ["div_pow2", d, a, bits] => some (.divPow2 (nat! d) (nat! a) (nat! bits))
+  | ["div_pow2_assign", d, bits] => some (.divPow2Assign (nat! d) (nat! bits))
+  | ["rescale", d, k, a] => some (.rescale (nat! d) (nat! k) (nat! a))
+  | ["rescale_assign", d, k] => some (.rescaleAssign (nat! d) (nat! k))
+  | ["align", a, b] => some (.align (nat! a) (nat! b))
+  | _ => none
+
+def LOp.dstSlot : LOp → Nat
+  | .add _ d _ _ | .addAssign _ d _ | .neg d _ | .negAssign d | .mulPow2 d _ _ | .mulPow2Assign d _
+  | .divPow2 d _ _ | .divPow2Assign d _ | .rescale d _ _ | .rescaleAssign d _ | .align d _ => d
+
+def showSlot (p : DPool) (d : Nat) : String :=
+  match p[d]? with
+  | some c => showG c.g
+  | none => "-"
+
+/-- the limbs printed after a call: the destination slot; both slots for `align` -/
+def showDst (p : DPool) : LOp → String
+  | .align a b => showSlot p a ++ "/" ++ showSlot p b
+  | op => showSlot p (LOp.dstSlot op)
+
+/-- the data-path run: outcome and metadata from the data model itself (`dstep`; its metadata transition is the
+one of `stepR`), continuing after `Err` with the pool the failed call leaves -/
+def runData (env : Env) (N : Nat) : DPool → List String → List String → List String
+  | _, [], acc => acc.reverse
+  | pool, t :: rest, acc =>
+    match parseLOp t with
+    | none => ("bad-op" :: acc).reverse
+    | some op =>
+      match dstep env N pool op with
+      | .ok p => runData env N p rest (("ok@" ++ showPool p.cts ++ "#" ++ showDst p op) :: acc)
+      | .err e =>
+        let p := dstepErrPool env N pool op
+        runData env N p rest (("err:" ++ e ++ "@" ++ showPool p.cts ++ "#" ++ showDst p op) :: acc)
+      | .panic c => (("panic:" ++ c) :: acc).reverse
+
 def handle (ts : List String) : String :=
   let env : Env := ⟨kvNat ts "base2k", kvInts ts "keys", kvNat ts "maxprec"⟩
   let pool := parsePool ((kv ts "pool").getD "")
   let ops := ((kv ts "ops").getD "").splitOn ";" |>.filter (fun s => !s.isEmpty)
-  "|".intercalate (runAll env pool ops [])
+  match kv ts "data" with
+  | some d =>
+    let n := kvNat ts "n"
+    let dpool : DPool := (pool.zip (d.splitOn "/")).map (fun (c, s) => ⟨parseG env.base2k n c.size s, c.md⟩)
+    "|".intercalate (runData env n dpool ops [])
+  | none => "|".intercalate (runAll env pool ops [])
 
 end Drv.Ckks
